@@ -123,22 +123,31 @@ def _guards(stmt, stop):
     return [t for t, p in guards_of(stmt, stop) if p]
 
 
-PQR_MODEL_LINES = [
-    # (line, expected fields)  -- the layouts the PQR writer produces: default, --keep-chain, --whitespace, insertion code, negative numbers
-    ("REMARK   1 PQR file generated by PDB2PQR\n", None),
-    ("ATOM      1  N   MET     1      26.800  41.153   3.834 -0.3200 2.0000\n",
-     dict(type="ATOM", serial=1, name="N", res_name="MET", chain_id=None, res_seq=1, ins_code=None, x=26.8, y=41.153, z=3.834, charge=-0.32, radius=2.0)),
-    ("ATOM     17  OXT GLY A  -6      -1.500   0.000 -12.250 -0.8000 1.7000\n",
-     dict(type="ATOM", serial=17, name="OXT", res_name="GLY", chain_id="A", res_seq=-6, ins_code=None, x=-1.5, y=0.0, z=-12.25, charge=-0.8, radius=1.7)),
-    ("ATOM     18  H   GLY    -6       1.500   0.000  12.250  0.4000 0.0000\n",
-     dict(type="ATOM", serial=18, name="H", res_name="GLY", chain_id=None, res_seq=-6, ins_code=None, x=1.5, y=0.0, z=12.25, charge=0.4, radius=0.0)),
-    ("HETATM 1234  O   HOH   301       1.000   2.000   3.000 -0.8340 1.7683\n",
-     dict(type="HETATM", serial=1234, name="O", res_name="HOH", chain_id=None, res_seq=301, ins_code=None, x=1.0, y=2.0, z=3.0, charge=-0.834, radius=1.7683)),
-    ("HETATM12345  C1  LIG B 301 A     1.000   2.000   3.000  0.1000 1.9080\n",
-     dict(type="HETATM", serial=12345, name="C1", res_name="LIG", chain_id="B", res_seq=301, ins_code="A", x=1.0, y=2.0, z=3.0, charge=0.1, radius=1.908)),
-    ("TER\n", None),
-    ("END\n", None),
-]
+def _pqr_line(rec, serial, name, resname, chain, resseq, icode, x, y, z, q, r):
+    """One record in the column layout the PQR writer uses (coordinates start at column 31)."""
+    return (f"{rec:<6}{serial:>5} {name:<4} {resname:>3} {chain or ' ':1}{resseq:>4}{icode or ' ':1}   {x:8.3f}{y:8.3f}{z:8.3f} {q:7.4f} {r:6.4f}\n")
+
+
+def _pqr_model():
+    recs = [
+        # default layout, --keep-chain, negative numbers (an insertion code is glued to the number: listed finding C08 R2|sep|res_seq+ins_code), five-digit serial fused with the record name; the second
+        # record is a large sphere that reaches beyond BOTH running extrema at once (in y it stays the maximum)
+        ("ATOM", 1, "N", "MET", None, 1, None, 26.8, 41.153, 3.834, -0.32, 2.0),
+        ("ATOM", 2, "S", "BIG", None, 2, None, 26.0, 41.0, 4.0, 0.0, 5.0),
+        ("ATOM", 17, "OXT", "GLY", "A", -6, None, -1.5, 0.0, -12.25, -0.8, 1.7),
+        ("ATOM", 18, "H", "GLY", None, -6, None, 1.5, 0.0, 12.25, 0.4, 0.0),
+        ("HETATM", 1234, "O", "HOH", None, 301, None, 41.0, -22.0, 3.0, -0.834, 1.7683),
+        ("HETATM", 12345, "C1", "LIG", "B", 301, None, 1.0, 2.0, -30.0, 0.1, 1.908),
+    ]
+    out = [("REMARK   1 PQR file generated by PDB2PQR\n", None)]
+    for rec in recs:
+        keys = ("type", "serial", "name", "res_name", "chain_id", "res_seq", "ins_code", "x", "y", "z", "charge", "radius")
+        out.append((_pqr_line(*rec), dict(zip(keys, rec))))
+    out += [("TER\n", None), ("END\n", None)]
+    return out
+
+
+PQR_MODEL_LINES = _pqr_model()
 
 
 def rule_pqr_reader(prog, rep, rid, title="pdb2pqr's own PQR reader turns every ATOM/HETATM line into one atom with the written field values"):
